@@ -436,14 +436,30 @@ func run(r *eng.Runner) {
 		}
 	}
 	if !r.Quick() {
-		r.Group("concurrent-3", "c20.conc", "three threads with one operation each (all multisets over the 4 operations) and FromCache(a) x3, preemption bound 2")
+		r.Group("concurrent-3", "c20.conc", "three threads with one operation each (all multisets over the 4 operations), preemption bound 3; three threads of which one runs two operations, bound 2; four threads with one operation each (all multisets), bound 2")
 		for i := range alpha {
 			for j := i; j < len(alpha); j++ {
 				for k := j; k < len(alpha); k++ {
-					r.Do(&ConcCase{Progs: [][]string{{alpha[i]}, {alpha[j]}, {alpha[k]}}, Bound: 2, Max: maxS})
+					r.Do(&ConcCase{Progs: [][]string{{alpha[i]}, {alpha[j]}, {alpha[k]}}, Bound: 3, Max: maxS})
+					for _, p := range progs {
+						if len(p) == 2 {
+							r.Do(&ConcCase{Progs: [][]string{p, {alpha[j]}, {alpha[k]}}, Bound: 2, Max: maxS})
+						}
+					}
+					for l := k; l < len(alpha); l++ {
+						r.Do(&ConcCase{Progs: [][]string{{alpha[i]}, {alpha[j]}, {alpha[k]}, {alpha[l]}}, Bound: 2, Max: maxS})
+					}
 				}
 			}
 		}
+		r.Group("concurrent-2-long", "c20.conc", "two threads with operation lists of length 3 against lists of length 1..2, preemption bound 2")
+		enum.Tuples(len(alpha), 3, func(idx []int) bool {
+			p3 := []string{alpha[idx[0]], alpha[idx[1]], alpha[idx[2]]}
+			for _, p := range progs {
+				r.Do(&ConcCase{Progs: [][]string{p3, p}, Bound: 2, Max: maxS})
+			}
+			return !r.Stopped()
+		})
 	}
 }
 
